@@ -14,7 +14,7 @@ use elliptic_curve::sec1::{FromEncodedPoint, ModulusSize, ToEncodedPoint};
 use elliptic_curve::{
     AffinePoint, Field, FieldBytesSize, Group, ProjectivePoint, PublicKey, Scalar, SecretKey,
 };
-use generic_array::typenum::{IsLess, IsLessOrEqual, U256};
+use generic_array::typenum::{IsLess, IsLessOrEqual, Unsigned, U256};
 use generic_array::GenericArray;
 use rand::{CryptoRng, RngCore};
 
@@ -42,6 +42,13 @@ where
     }
 
     fn deserialize_pk(bytes: &[u8]) -> Result<Self::Pk, InternalError> {
+        // Only the compressed SEC1 encoding produced by `serialize_pk` is accepted, so that a public
+        // key has exactly one encoding (`from_sec1_bytes` would also take the identity, the
+        // uncompressed and the "compact" form)
+        if bytes.len() != Self::PkLen::USIZE || !matches!(bytes.first(), Some(0x02 | 0x03)) {
+            return Err(InternalError::PointError);
+        }
+
         PublicKey::<Self>::from_sec1_bytes(bytes)
             .map(|public_key| public_key.to_projective())
             .map_err(|_| InternalError::PointError)
